@@ -798,18 +798,23 @@ def PackedDataToBuffer(packed_data: bytes, buffer: Optional[bytes] = None, offse
 
 
 def yaw_to_heading(yaw: Union[float, np.ndarray], deg: bool = True):
+    # Heading is measured clockwise from north: heading = 90 - yaw, wrapped to [0, 360) (or [0, 2*pi)).
+    #
+    # np.fmod() keeps the sign of its first argument, so a full turn is added and the remainder taken again. The
+    # second np.fmod() also covers tiny negative values, for which `x + 360.0` rounds to exactly 360.0.
     if deg:
         heading_deg = 90.0 - yaw
-        return np.fmod(heading_deg + 180.0, 360.0)
+        return np.fmod(np.fmod(heading_deg, 360.0) + 360.0, 360.0)
     else:
         heading_rad = math.pi / 2.0 - yaw
-        return np.fmod(heading_rad + math.pi, 2.0 * math.pi)
+        return np.fmod(np.fmod(heading_rad, 2.0 * math.pi) + 2.0 * math.pi, 2.0 * math.pi)
 
 
 def heading_to_yaw(heading: Union[float, np.ndarray], deg: bool = True):
+    # Yaw is measured counter-clockwise from east: yaw = 90 - heading, wrapped to [-180, 180) (or [-pi, pi)).
     if deg:
         yaw_deg = 90.0 - heading
-        return np.fmod(yaw_deg + 180.0, 360.0) - 180.0
+        return np.fmod(np.fmod(yaw_deg + 180.0, 360.0) + 360.0, 360.0) - 180.0
     else:
         yaw_rad = math.pi / 2.0 - heading
-        return np.fmod(yaw_rad + math.pi, 2.0 * math.pi) - math.pi
+        return np.fmod(np.fmod(yaw_rad + math.pi, 2.0 * math.pi) + 2.0 * math.pi, 2.0 * math.pi) - math.pi
